@@ -1,0 +1,273 @@
+//go:build verif
+
+/*
+ * Copyright 2022 CloudWeGo Authors
+ *
+ * Licensed under the Apache License, Version 2.0 (the "License");
+ * you may not use this file except in compliance with the License.
+ * You may obtain a copy of the License at
+ *
+ *     http://www.apache.org/licenses/LICENSE-2.0
+ *
+ * Unless required by applicable law or agreed to in writing, software
+ * distributed under the License is distributed on an "AS IS" BASIS,
+ * WITHOUT WARRANTIES OR CONDITIONS OF ANY KIND, either express or implied.
+ * See the License for the specific language governing permissions and
+ * limitations under the License.
+ */
+
+package manager
+
+// Verification hooks. This file is only compiled with the build tag `verif`;
+// it adds read-only views and an injection point for an in-memory ADS client,
+// it changes no behaviour of the code built without the tag.
+
+import (
+	"context"
+	"sort"
+	"time"
+
+	"github.com/cenkalti/backoff/v4"
+	v3core "github.com/envoyproxy/go-control-plane/envoy/config/core/v3"
+	discoveryv3 "github.com/envoyproxy/go-control-plane/envoy/service/discovery/v3"
+
+	"github.com/kitex-contrib/xds/core/xdsresource"
+)
+
+// VerifMarkerTypeURL is the type url of the flush marker request, see VerifFlushMarker.
+const VerifMarkerTypeURL = "verif.marker/"
+
+// VerifManager is the manager type handed to the verification harness.
+type VerifManager = xdsResourceManager
+
+// VerifBootstrap builds a BootstrapConfig without reading the environment.
+func VerifBootstrap(namespace, domain string, node *v3core.Node, cfg *XDSServerConfig) *BootstrapConfig {
+	return &BootstrapConfig{
+		configNamespace: namespace,
+		nodeDomain:      domain,
+		node:            node,
+		xdsSvrCfg:       cfg,
+	}
+}
+
+// VerifBootstrapFromEnv is newBootstrapConfig.
+func VerifBootstrapFromEnv(cfg *XDSServerConfig) (*BootstrapConfig, error) {
+	return newBootstrapConfig(cfg)
+}
+
+// VerifParseMetaEnvs is parseMetaEnvs.
+func VerifParseMetaEnvs(envs, istioVersion, podIP string) map[string]interface{} {
+	return parseMetaEnvs(envs, istioVersion, podIP).AsMap()
+}
+
+// VerifNode returns the node and namespace/domain of the config.
+func (bc *BootstrapConfig) VerifNode() (*v3core.Node, string, string) {
+	return bc.node, bc.configNamespace, bc.nodeDomain
+}
+
+// VerifExpandFQDN is tryExpandFQDN.
+func (bc *BootstrapConfig) VerifExpandFQDN(host string) string {
+	return bc.tryExpandFQDN(host)
+}
+
+// VerifNewManager is NewXDSResourceManager with the ADS client injected instead of dialled.
+// fastBackoff replaces the exponential connect back-off by a constant 1ms one.
+func VerifNewManager(bootstrapConfig *BootstrapConfig, ac ADSClient, fastBackoff bool, opts ...Option) (*VerifManager, error) {
+	m := &xdsResourceManager{
+		cache:       map[xdsresource.ResourceType]map[string]xdsresource.Resource{},
+		meta:        make(map[xdsresource.ResourceType]map[string]*xdsresource.ResourceMeta),
+		notifierMap: make(map[xdsresource.ResourceType]map[string]*notifier),
+		opts:        NewOptions(opts),
+		closeCh:     make(chan struct{}),
+		xdsHandlers: make(map[xdsresource.ResourceType][]xdsresource.XDSUpdateHandler),
+	}
+	if bootstrapConfig.xdsSvrCfg == nil {
+		bootstrapConfig.xdsSvrCfg = m.opts.XDSSvrConfig
+	} else {
+		m.opts.XDSSvrConfig = bootstrapConfig.xdsSvrCfg
+	}
+	cli := &xdsClient{
+		config:               bootstrapConfig,
+		adsClient:            ac,
+		connectBackoff:       backoff.NewExponentialBackOff(),
+		watchedResource:      make(map[xdsresource.ResourceType]map[string]bool),
+		cipResolver:          newNdsResolver(),
+		versionMap:           make(map[xdsresource.ResourceType]string),
+		nonceMap:             make(map[xdsresource.ResourceType]string),
+		resourceUpdater:      m,
+		closeCh:              make(chan struct{}),
+		inboundInitRequestCh: make(chan struct{}),
+		streamCh:             make(chan ADSStream, 1),
+		reqCh:                make(chan *discoveryv3.DiscoveryRequest, 1024),
+	}
+	if fastBackoff {
+		cli.connectBackoff = backoff.NewConstantBackOff(time.Millisecond)
+	}
+	// same order as newXdsClient / NewXDSResourceManager, except that m.client is set
+	// before run() so that the views below can be used during warmup.
+	m.client = cli
+	cli.run()
+	go m.cleaner()
+	return m, nil
+}
+
+// VerifCacheNames returns the sorted names cached for the type.
+func (m *xdsResourceManager) VerifCacheNames(rt xdsresource.ResourceType) []string {
+	m.mu.RLock()
+	defer m.mu.RUnlock()
+	names := make([]string, 0, len(m.cache[rt]))
+	for n := range m.cache[rt] {
+		names = append(names, n)
+	}
+	sort.Strings(names)
+	return names
+}
+
+// VerifCachePeek returns the cached resource without touching the access time.
+func (m *xdsResourceManager) VerifCachePeek(rt xdsresource.ResourceType, name string) (xdsresource.Resource, bool) {
+	m.mu.RLock()
+	defer m.mu.RUnlock()
+	r, ok := m.cache[rt][name]
+	return r, ok
+}
+
+// VerifMetaNames returns the sorted names having a meta entry; accessed tells if an access time was recorded.
+func (m *xdsResourceManager) VerifMetaNames(rt xdsresource.ResourceType) (names []string, accessed []bool) {
+	m.mu.RLock()
+	defer m.mu.RUnlock()
+	for n := range m.meta[rt] {
+		names = append(names, n)
+	}
+	sort.Strings(names)
+	for _, n := range names {
+		_, ok := m.meta[rt][n].LastAccessTime.Load().(time.Time)
+		accessed = append(accessed, ok)
+	}
+	return
+}
+
+// VerifNotifierNames returns the sorted names that currently have a notifier.
+func (m *xdsResourceManager) VerifNotifierNames(rt xdsresource.ResourceType) []string {
+	m.mu.RLock()
+	defer m.mu.RUnlock()
+	names := make([]string, 0)
+	for n := range m.notifierMap[rt] {
+		names = append(names, n)
+	}
+	sort.Strings(names)
+	return names
+}
+
+// VerifBackdate shifts the recorded access time of a resource into the past.
+// It reports false when the resource has no meta entry.
+func (m *xdsResourceManager) VerifBackdate(rt xdsresource.ResourceType, name string, d time.Duration) bool {
+	m.mu.RLock()
+	defer m.mu.RUnlock()
+	mt, ok := m.meta[rt][name]
+	if !ok {
+		return false
+	}
+	if t, ok := mt.LastAccessTime.Load().(time.Time); ok {
+		mt.LastAccessTime.Store(t.Add(-d))
+		return true
+	}
+	return false
+}
+
+// VerifWatched returns the sorted interest set of the type; subscribed is false when the type was never watched.
+func (m *xdsResourceManager) VerifWatched(rt xdsresource.ResourceType) (names []string, subscribed bool) {
+	c := m.client
+	c.mu.RLock()
+	defer c.mu.RUnlock()
+	w, ok := c.watchedResource[rt]
+	if !ok {
+		return nil, false
+	}
+	names = make([]string, 0, len(w))
+	for n := range w {
+		names = append(names, n)
+	}
+	sort.Strings(names)
+	return names, true
+}
+
+// VerifVersionNonce returns the acknowledged version and the last nonce of the type.
+func (m *xdsResourceManager) VerifVersionNonce(rt xdsresource.ResourceType) (string, string) {
+	c := m.client
+	c.mu.RLock()
+	defer c.mu.RUnlock()
+	return c.versionMap[rt], c.nonceMap[rt]
+}
+
+// VerifTable returns a copy of the name table.
+func (m *xdsResourceManager) VerifTable() map[string][]string {
+	r := m.client.cipResolver
+	r.mu.Lock()
+	defer r.mu.Unlock()
+	out := make(map[string][]string, len(r.lookupTable))
+	for k, v := range r.lookupTable {
+		out[k] = append([]string(nil), v...)
+	}
+	return out
+}
+
+// VerifPending returns the number of queued requests.
+func (m *xdsResourceManager) VerifPending() int {
+	return len(m.client.reqCh)
+}
+
+// VerifClosed tells if the client has been stopped.
+func (m *xdsResourceManager) VerifClosed() bool {
+	select {
+	case <-m.client.closeCh:
+		return true
+	default:
+		return false
+	}
+}
+
+// VerifFlushMarker queues a marker request (type url VerifMarkerTypeURL+tag) behind every
+// request queued so far. When the stream sees it, every earlier request has been sent.
+// It reports false if the queue is full.
+func (m *xdsResourceManager) VerifFlushMarker(tag string) bool {
+	select {
+	case m.client.reqCh <- &discoveryv3.DiscoveryRequest{TypeUrl: VerifMarkerTypeURL + tag}:
+		return true
+	default:
+		return false
+	}
+}
+
+// VerifResolveAddr is resolveAddr.
+func (m *xdsResourceManager) VerifResolveAddr(host string) string {
+	return m.client.resolveAddr(host)
+}
+
+// VerifListenerName is getListenerName.
+func (m *xdsResourceManager) VerifListenerName(name string) (string, error) {
+	return m.client.getListenerName(name)
+}
+
+// VerifSetTable replaces the name table (as an accepted NDS response would).
+func (m *xdsResourceManager) VerifSetTable(t map[string][]string) {
+	m.client.cipResolver.updateLookupTable(t)
+}
+
+type verifSchedKey struct{}
+
+// VerifScheduler is called at the yield points of Get.
+type VerifScheduler interface {
+	// Yield blocks until the scheduler lets the caller continue.
+	Yield(point int, ch <-chan struct{})
+}
+
+// VerifWithScheduler attaches a scheduler to the context passed to Get.
+func VerifWithScheduler(ctx context.Context, s VerifScheduler) context.Context {
+	return context.WithValue(ctx, verifSchedKey{}, s)
+}
+
+func verifYield(ctx context.Context, point int, ch <-chan struct{}) {
+	if s, ok := ctx.Value(verifSchedKey{}).(VerifScheduler); ok {
+		s.Yield(point, ch)
+	}
+}
